@@ -11,11 +11,11 @@ CHECKS = {
    text="The library's encoders (vm.NewLine, asm.writeSize/writeSym through the verif hook) are run over every symbol length 1..255, every uint32 (thorough) or all width boundaries plus 2M values (quick), and PRNG programs; each encoding is decoded by the VM's Parse* functions, the disassembler and an independent harness decoder, and must come back identical with exact byte consumption; asm.Parse(ToString(b)) must reproduce b.",
    note="Trusted: the harness decoder written from the format description. Programs outside the assembler's own grammar skip the re-assembly leg."),
  "C15": dict(engine="codec", category="exploration", design="§3 C15",
-   technique="runtime monitor: strict-validator oracle + recover() + differential over-read detection (three buffer presentations plus a listing into a writer that fails) on exhaustively enumerated short inputs and all single-byte mutants/truncations of valid programs; Vm.Run on a new state and on the state after a failed load; Go coverage-guided fuzzing on the same oracle in the thorough tier",
+   technique="runtime monitor: strict-validator oracle + recover() + differential over-read detection (three buffer presentations plus a listing into a writer that fails) on exhaustively enumerated short inputs and all single-byte mutants/truncations of valid programs; Vm.Run on a new state and on the state after a failed load; the dev/disasm command built from the tree and run as a process on valid, damaged and text-looking files; Go coverage-guided fuzzing on the same oracle in the thorough tier",
    text="Every byte string up to length 3 (thorough; quick a subset covering every in-range opcode), all strings of length 4..6 over an 18-byte alphabet, and every truncation and single-byte substitution of PRNG programs are fed to ParseAll/ToString, the VM's Parse* chain and Vm.Run; a panic, success on input the validator classifies as malformed, or a result that depends on bytes beyond the slice is a violation.",
    note="Trusted: the strict validator. NOOP (opcode 0) and rejection of complete-valid input are don't-care. Vm.Run: runtime-error panics only."),
  "C16": dict(engine="codec", category="exploration", design="§3 C16",
-   technique="runtime monitor: generated assembly sources (AST printed to text) assembled by asm.Parse, output decoded by an independent decoder and compared with the AST; concurrent assembly compared with sequential; the dev/asm command built from the tree and run as a process with its flag preprocessor",
+   technique="runtime monitor: generated assembly sources (AST printed to text) assembled by asm.Parse, output decoded by an independent decoder and compared with the AST; concurrent assembly compared with sequential; the dev/asm command built from the tree and run as a process with its flag preprocessor, reading a file or a pipe",
    text="Tens of thousands (quick) to a million (thorough) sources over every opcode, all token classes of the documented grammar, all numeric widths and batch groups are assembled; the emitted bytecode must decode to exactly the instructions written. Half of the sources contain only token classes with no recorded finding so a new break cannot hide behind a known one.",
    note="Trusted: the harness decoder and the expansion table transcribed from instructions.texi. Known findings (numeric-first lexing, upper-case initial) are listed in KNOWN_FINDINGS.txt by token class."),
  "C13": dict(engine="pgfake", category="fault_enumeration", design="§3 C13",
@@ -23,7 +23,7 @@ CHECKS = {
    text="All client-legal sequences up to length 4 (quick) / 5 plus 400k longer PRNG sequences (thorough), each with every choice of 0, 1 or 2 failing primitive calls (begin/exec/query/next/scan/commit): the faulted operation must report an error, no panic, fault-free operations outside a dirty transaction must succeed and return acknowledged values, every transaction must be finished by Close, and the committed map must match the acknowledged writes.",
    note="Trusted base: pgfake's model of Postgres/pgx transaction semantics (no real Postgres offline). Dirty explicit transactions are don't-care. One recorded finding family (sticky multi mode after Stop, pinned by the repository's own test)."),
  "C07": dict(engine="sessions-differential", category="exploration", design="§3 C07",
-   technique="runtime monitor: two-run differential (long-lived engine vs fresh engine+persister+store handle per request) over generated applications and histories on four backends, plus snapshot re-read equality; two interleaved sessions per store with a persister of their own or one shared persister object (flushing / plain) and requests abandoned before Finish; engine.Loop as the driver (whole history, one call per request)",
+   technique="runtime monitor: two-run differential (long-lived engine vs fresh engine+persister+store handle per request) over generated applications and histories on four backends, plus snapshot re-read equality; two interleaved sessions per store with a persister of their own or one shared persister object (flushing / plain) and requests abandoned before Finish; engine.Loop as the driver (whole history, one call per request); sessions 12..100 levels deep; sessions started from prepared state and cache objects",
    text="The same generated application, configuration and input history are served by one long-lived engine and by a new engine per request over mem, fs, fs-binary and the Postgres driver fake; outputs, continue flags and error classes must agree step by step to the end of the session, and after every save the snapshot read back through a fresh handle must equal the live state/cache. No model is involved.",
    note="Assumes error classes (not texts) are what the client observes; histories end at the first failing request. Trusted: harness drivers and pgfake."),
  "C08": dict(engine="sessions-differential", category="exploration", design="§3 C08",
@@ -35,11 +35,11 @@ CHECKS = {
    text="For generated applications and histories a refused input (every byte that cannot start an input, '+' forms, newlines, invalid UTF-8, 256..70000 bytes) is inserted at every position; the refused request must fail without callbacks or output, the snapshots around it must be equal, and all later requests must equal the run without it. Flush before the first Exec is checked the same way.",
    note="The harness's own reading of the accepted input format decides what must be refused. No WithFirst hook installed."),
  "C19": dict(engine="conc-race", category="exploration", design="§3 C19",
-   technique="Go race detector (-race build, GORACE log parsed and de-duplicated) + transcript equality against a sequential reference + canary check of shared slices, over rounds of 2..16 concurrently served sessions (one or two applications, debug features on in a third of the rounds, one application logger with a session context key shared by all sessions) with PRNG yields inside resource callbacks",
+   technique="Go race detector (-race build, GORACE log parsed and de-duplicated) + transcript equality against a sequential reference and against the same session served alone by a fresh process + canary check of shared slices, over rounds of 2..16 concurrently served sessions (one or two applications, debug features on in a third of the rounds, one application logger with a session context key shared by all sessions) with PRNG yields inside resource callbacks",
    text="Rounds of 2..16 goroutines each serve an own session (four driver/backend combinations) over one shared application whose code slices have canary-filled spare capacity; any race report with a library frame, any transcript that differs from the same session served alone, or any modified shared byte is a violation. Evidence reports goroutines, callbacks and cross-session switches observed.",
    note="Covers only the schedules that occurred. Harness-only race reports make the run inconclusive (monitor defect), never a pass."),
  "C01": dict(engine="render", category="exploration", design="§3 C01",
-   technique="runtime monitor: relation oracle over real renders (render.Page/Menu/Sizer driven directly, and whole applications through Engine.Flush in lock-step with an unlimited run) at adversarially chosen sizes around every natural page length",
+   technique="runtime monitor: relation oracle over real renders (render.Page/Menu/Sizer driven directly, and whole applications through Engine.Flush in lock-step with an unlimited run) at adversarially chosen sizes around every natural page length, including pages whose sizer replaces an earlier one",
    text="Every generated page configuration is measured without limit and then rendered at every size around its natural length and around the sink-less length, plus a sweep; any successful output longer than the size, any non-sink page that differs from the composed text, any over-long page returned instead of an error and any output written together with an error is a violation. The engine layer serves generated applications in lock-step with and without a limit, sizes taken from the natural lengths of that very history.",
    note="Trusted: the harness's composition of the page text. A fitting page that fails for a reason other than size is outside the property (counted). Known: exit value appended/only written at session end."),
  "C02": dict(engine="render", category="exploration", design="§3 C02",
@@ -47,7 +47,7 @@ CHECKS = {
    text="For each configuration (rows incl. empty/leading/consecutive/trailing-empty, MSINK menus, browse labels, error prefix, separators) pages 0..k+1 are rendered at every size from nothing-fits to everything-fits: each page must be static text + section + menu + next/previous exactly as stated, the sections must reassemble to the content, indexes past the end must fail, an offered next must render. The engine layer walks the same content forwards past the end and backwards before the start.",
    note="Break-position policy is free. Known findings (joinSink arithmetic): empty rows at page starts/content end dropped; next offered for a page that fails the size check."),
  "C03": dict(engine="sessions-model", category="exploration", design="§3 C03",
-   technique="runtime monitor: lock-step executable reference model (SpecVM) over recorded histories at the API boundary (recording resource, live State/Cache objects, decoded stored snapshot), this property's projection only (position, GetCode log, invalid-input page)",
+   technique="runtime monitor: lock-step executable reference model (SpecVM) over recorded histories at the API boundary (recording resource, live State/Cache objects, decoded stored snapshot), this property's projection only (position, GetCode log, invalid-input page); routing tables beyond 2^16 lines; model-free metamorphic rewriting of the pending INCMP list",
    text='Thousands of generated programs with duplicate selectors, wildcards anywhere, relative targets and interleaved instructions are served with histories over their selector alphabet plus junk; after every request the nodes fetched and the position must equal first-match-once routing, and an unmatched input must show the invalid-input catch page.',
    note="Trusted base: the SpecVM model (harness/specvm) written from doc/texinfo and the property statements; don't-care where they are silent (state after a failed request, internal flags, paginated pages). Histories are PRNG-determined; held-on-observed only."),
  "C04": dict(engine="sessions-model", category="exploration", design="§3 C04",
@@ -75,7 +75,7 @@ CHECKS = {
    text="PRNG sequences of Put/Get/SetPrefix/SetSession/SetLanguage/SetLock(seal)/Dump and DbResource lookups over well-formed keys (including the letters that double as fs type characters), dot-free session ids, text/binary/empty values and all six data types are applied to a reference map and to four backends; reads, not-found recognition, language fallback, lock refusal, sealing, the resource's refusal of unlocked stores and prefix listings must agree with the model.",
    note="Trusted: the reference map; pgfake for Postgres. Listings are compared for types without language scope. One recorded finding (empty session lists all sessions)."),
  "C11": dict(engine="refstore", category="exploration", design="§3 C11",
-   technique="runtime monitor: exhaustive ordered-pair isolation probes by bit-indexed write/read rounds with unique values over an adversarial address alphabet on four backends, each hit confirmed by an isolated two-address probe and attributed to a mechanism computed from the two addresses; snapshot equality for sessions saved and loaded through one shared persister object (plain and flushing, also after a refused request); birthday family of over-long ids when the store accepts them",
+   technique="runtime monitor: exhaustive ordered-pair isolation probes by bit-indexed write/read rounds with unique values over an adversarial address alphabet on four backends, each hit confirmed by an isolated two-address probe and attributed to a mechanism computed from the two addresses; every round read a second time through the handle with every data type locked; snapshot equality for sessions saved and loaded through one shared persister object (plain and flushing, also after a refused request); birthday family of over-long ids when the store accepts them",
    text="All ordered pairs of different (type, session, key) addresses from an adversarial alphabet (24 session ids x 24 keys x 2 sessioned types + 24 keys x 4 resource types = 1248 addresses quick; 60 x 60 alphabets thorough) are covered on mem, fs, fs-binary and the Postgres fake with 2*log2(n) rounds per backend: a written address must return its own value, an unwritten one nothing, an fs listing only its own session's records. A confusion through any mechanism other than the recorded ones (separator ambiguity of sid.key; legacy file-name fallback for resource types) is a new violation.",
    note="Addresses whose Put fails count as not accepted by the backend. Mechanism attribution is computed by the harness from the two addresses only."),
  "C12": dict(engine="crash", category="fault_enumeration", design="§3 C12",
